@@ -107,6 +107,40 @@ def gen_seq(rng):
     return f"(mkICase {d}%nat [" + "; ".join(items) + "])", {"points": [p.tolist() for p in pts], "ops": ops, "given_as": how, "dtype": np.dtype(dt).name}, fails
 
 
+def gen_seq_remove(rng):
+    """add / remove sequences (remove_sample is a public operation of iCVI_CH; its mean update was a defect): the tracked
+    value against the batch index of the data that remain, and for corr/RunICVIrm.v"""
+    from artlib.cvi.iCVIs.CalinkskiHarabasz import iCVI_CH
+    d = rng.choice([1, 2, 3])
+    n = rng.randrange(3, 12)
+    pts = [np.array([rng.randrange(0, 9) / 8 for _ in range(d)]) for _ in range(n)]
+    ic = iCVI_CH(pts[0])
+    data, items, ops, fails, k = [], [], [], [], 0
+    for x in pts:
+        l = rng.randrange(0, k + 1) if rng.random() < 0.7 else k
+        if l == k:
+            k += 1
+        ic.update(ic.add_sample(x, l)); data.append((x, l))
+        items.append(f"IAdd2 {qlist(x.tolist())} {l}%nat {q(float(ic.criterion_value))}")
+        ops.append(("add", x.tolist(), l))
+        if rng.random() < 0.4 and len(data) > 2:
+            j = rng.randrange(len(data))
+            xj, lj = data[j]
+            if sum(1 for _, l2 in data if l2 == lj) > 1:
+                ic.update(ic.remove_sample(xj, lj)); data.pop(j)
+                items.append(f"IRemove2 {qlist(xj.tolist())} {lj}%nat {q(float(ic.criterion_value))}")
+                ops.append(("remove", xj.tolist(), lj))
+        want = batch_ch([p_ for p_, _ in data], [l2 for _, l2 in data])
+        got = float(ic.criterion_value)
+        if not np.isfinite(got) or abs(got - want) > 1e-6 * (1 + abs(want)):
+            resid = abs(ic.WGSS) < 1e-12
+            fails.append({"signature": "iCVI_CH/wgss-rounding-residue" if resid else "iCVI_CH/value",
+                          "text": f"after {ops[-1][0]}: incremental CH {got} != batch CH {want} of the data that remain" + (" (WGSS is a rounding residue)" if resid else ""),
+                          "replay": {"ops": ops}})
+            break
+    return f"(mkICase2 {d}%nat [" + "; ".join(items) + "])", {"ops": ops, "with_remove": True}, fails
+
+
 def gen_fit(rng):
     from artlib.cvi.iCVIFuzzyArt import iCVIFuzzyART
     d = rng.choice([1, 2])
@@ -258,8 +292,13 @@ def cviart_gate(rng):
         labs = st["labs"]
         for c_, r in st["calls"]:
             new_l = labs.copy(); new_l[st["index"]] = c_
-            if st["ncat"] < 2 or not (defined(labs) and defined(new_l)):
-                continue            # nothing to compare: the index does not exist for one of the labellings
+            if st["ncat"] < 2 or not defined(labs):
+                continue            # nothing to compare with: no index for the labelling before the step
+            if not defined(new_l):
+                if r:
+                    return {"signature": "CVIART/gate", "text": f"step {k} (sample {st['index']}): CVI_match permitted cluster {c_} although the labelling before the step has an index "
+                            f"({fn(X, labs)}) and the candidate labelling has none", "replay": summ}
+                continue
             old, new = fn(X, labs), fn(X, new_l)
             want = (new < old) if validity == 2 else (new > old)
             if r != want:
@@ -280,6 +319,8 @@ def cviart_gate(rng):
             labs = st["labs"]
             new_l = labs.copy(); new_l[st["index"]] = c_
             old = new = 0.0
+            if st["ncat"] >= 2 and defined(labs) and not defined(new_l):
+                old = float(fn(X, labs))
             if st["ncat"] >= 2 and defined(labs) and defined(new_l):
                 old, new = float(fn(X, labs)), float(fn(X, new_l))
                 if not (np.isfinite(old) and np.isfinite(new)):
@@ -315,11 +356,17 @@ def main():
         r = cviart_gate(rng)
         if r:
             fails.append(r)
+    rng_r = C.make_rng(seed, "C15-remove")
+    rstrs, rsumm = [], []
+    for _ in range(200 if tier == "quick" else 2000):
+        s_, summ_, f_ = gen_seq_remove(rng_r)
+        rstrs.append(s_); rsumm.append(summ_); fails.extend(f_)
+    rcodes, rbad = flow.coq_corr("C15r", "RunICVIrm", rstrs, shard=100, check_fn="icheck2", extra_imports="From ARTcorr Require Import RunICVI.\n")
     gsel = GATE_CASES[:1500] if tier == "quick" else GATE_CASES[:15000]
     gcodes, gbad = flow.coq_corr("C15g", "RunGate", [g[0] for g in gsel], shard=300, check_fn="gcheck", extra_imports="From ARTcorr Require Import RunBase.\n")
     scodes, sbad = flow.coq_corr("C15", "RunICVI", sstrs, shard=100, check_fn="icheck")
     fcodes, fbad = flow.coq_corr("C15f", "RunICVI", fstrs, shard=60, check_fn="ifcheck")
-    for b in sbad + fbad + gbad:
+    for b in sbad + fbad + gbad + rbad:
         v.notes.append("coq shard failed: " + b[-600:])
 
     def site(summ, code):
@@ -329,12 +376,12 @@ def main():
         if isinstance(summ, dict) and summ.get("wgss_residue"):
             return "iCVI_CH/wgss-rounding-residue"
         return None
-    flow.decide(v, "C15", gate_ok, ob, list(zip(scodes, ssumm)) + list(zip(fcodes, fsumm)) + list(zip(gcodes, [g[1] for g in gsel])), fails, None, site)
+    flow.decide(v, "C15", gate_ok, ob, list(zip(scodes, ssumm)) + list(zip(fcodes, fsumm)) + list(zip(gcodes, [g[1] for g in gsel])) + list(zip(rcodes, rsumm)), fails, None, site)
     v.cov.update({
         "evaluations": ns + nf, "distinct_nontrivial": len(set(C.case_hash(s) for s in ssumm)) + len(set(C.case_hash(s) for s in fsumm)),
         "rule": "random add_sample / switch_label sequences (API-permitted: no switch out of a singleton) on 1-3 dimensional k/8 grid points, 2-11 points, labels chosen so that clusters appear late and merge; "
                 "iCVIFuzzyART fits offline and online on complement-coded grid data, 5 modes; CVIART with all three indices; non-trivial = distinct sequence / fit",
-        "traces_validated_against_impl": sum(1 for x in scodes + fcodes + gcodes if x == 0), "cviart_gate_calls_against_model": len(gsel),
+        "traces_validated_against_impl": sum(1 for x in scodes + fcodes + gcodes if x == 0), "cviart_gate_calls_against_model": len(gsel), "add_remove_sequences_against_model": len(rstrs),
         "cviart_gate_calls_with_an_index_to_compare": sum(1 for g in gsel if g[1]["index_before"] != 0.0 or g[1]["index_candidate"] != 0.0),
         "non_robust_fits_not_judged": nonrobust, "samples": ssumm[:1]})
     v.assumptions = ["exact-real reading: where the exact within-group dispersion is 0 the index is 0 by convention; binary64 rounding residues are a recorded finding",
